@@ -36,7 +36,8 @@ Record build_facts := {
   bf_create_resizes_existing : bool;      (* Create() on an existing file only resizes it *)
   bf_alloc_zeroes : bool;                 (* Allocate memsets what it hands out *)
   bf_open_guarded : bool;                 (* OpenReadOnly returns false when the file cannot be mapped *)
-  bf_save_mode : save_mode                (* ConfigData::SaveToFile *)
+  bf_save_mode : save_mode;               (* how a compiled config reaches its final name *)
+  bf_stamp_last : bool                    (* WorkspaceUpdate writes var/last_build_time after all schema updates *)
 }.
 
 (** ** the file behind a MappedFile *)
@@ -158,6 +159,21 @@ Fixpoint tag_index (es : list eff) : nat :=
   | ETag :: _ => 0
   | _ :: r => S (tag_index r)
   end.
+
+(** ** WorkspaceUpdate::Run and the start-up test DetectModifications::Run *)
+
+Inductive weff := WUpdate (x : N) | WStamp (now : N).
+
+(** the schema updates and the write of var/last_build_time, in program order *)
+Definition ws_effs (stamp_last : bool) (now : N) (xs : list N) : list weff :=
+  if stamp_last then map WUpdate xs ++ [WStamp now] else WStamp now :: map WUpdate xs.
+
+Definition stamp_after (es : list weff) (old : N) : N :=
+  fold_left (fun st e => match e with WStamp n => n | WUpdate _ => st end) es old.
+
+(** a start-up deployment runs iff some source is newer than the stamp *)
+Definition detect_modifications (latest_source_mtime last_build_time : N) : bool :=
+  last_build_time <? latest_source_mtime.
 
 (** ** compiled YAML: ConfigData::SaveToFile *)
 
